@@ -687,3 +687,32 @@ pub fn retry_native(valid: bool, authed_before: u8) -> u32 {
         2
     }
 }
+
+/// Native replay body for the E2 slice query `e2_black_hole_purges_datagrams_slice` (C16 / C13): a
+/// connection at MTU 1452 with a 1300-byte datagram queued declares a large packet lost; that is the
+/// loss burst that reveals a black hole, the estimate falls back to 1200 - and the queued datagram,
+/// which can never be sent on this path again, must be gone (and the application told it may send).
+pub fn black_hole_datagrams_native(_x: u8) -> u32 {
+    let mut conn = mk_conn(false, false);
+    conn.peer_params.max_datagram_frame_size = Some(VarInt::from_u32(65535));
+    conn.path.mtud = mtud::mk_black_hole_ready();
+    assert!(conn.path.current_mtu() == 1452);
+    let t0 = crate::verif::mk_instant(50, 0).unwrap();
+    let now = crate::verif::mk_instant(55, 0).unwrap();
+    assert!(conn.datagrams().send(Bytes::from(vec![1u8; 1300]), false).is_ok(), "1300 bytes fit a 1452-byte path");
+    conn.datagrams.send_blocked = true;
+    // one large packet in flight in the Data space, far behind the largest acknowledged one
+    let sent = SentPacket { path_generation: 0, time_sent: t0, size: 1400, ack_eliciting: true, largest_acked: None, retransmits: ThinRetransmits::default(), stream_frames: Default::default() };
+    paths::in_flight_insert(&mut conn.path, &sent);
+    conn.spaces[SpaceId::Data].sent(7, sent);
+    conn.spaces[SpaceId::Data].largest_acked_packet = Some(20);
+    conn.spaces[SpaceId::Data].largest_acked_packet_sent = t0;
+    conn.detect_lost_packets(now, SpaceId::Data, true);
+    assert!(conn.stats.path.black_holes_detected == 1, "the prepared loss burst did not trigger black hole detection");
+    assert!(conn.path.current_mtu() == 1200);
+    let max = conn.datagrams().max_size().unwrap();
+    assert!(max < 1300);
+    assert!(conn.datagrams.outgoing.iter().all(|d| d.data.len() <= max), "a datagram that no longer fits the path is still queued after the black hole was detected");
+    assert!(!conn.datagrams.send_blocked, "application not told that datagrams can be sent again");
+    1
+}
